@@ -752,9 +752,8 @@ def c14_growth(tier, seed):
     for r in extra:
         for k in ('lines', 'ops', 'skipped'):
             res[k] += r[k]
-        for p, sg in r['sigs'].items():
-            res['sigs'].setdefault(p, [])
-            res['sigs'][p] = sorted(set(res['sigs'][p]) | set(sg))
+        if r.get('sigfile'):
+            res.setdefault('sigfiles', []).append(r['sigfile'])
         for p, n in r['nlines'].items():
             res['nlines'][p] = res['nlines'].get(p, 0) + n
         res['violations'] += [dict(v, drvconf=r.get('drvconf'), fmode=r.get('fmode', 0)) for v in r['violations']]
